@@ -16,8 +16,8 @@ func init() {
 		Meta: report.Meta{
 			Property: "C17",
 			Rule: "every command <<name w1 .. wk>>, k<=3 (quick: full word alphabet for k<=2, reduced for k=3), names from {foo, iffy, settings, jumpy, callous, declared, localhost, enumerate, caseload, stopper, elsewhere, elseifx, endiffy, é, x1, stop}, " +
-				"words from {abc, é, true, false, 1, 007, -2, 3.5, -0.5, +3, inf, nan, Infinity, 0x10, True, 1., .5, -, 1.2.3, {1+1}, {\"s t\"}, {true}, {$v}}, separators from {one space, three spaces, tab, leading / trailing space}; " +
-				"handlers registered with raw AddCommand record their typed arguments; each name also unregistered, and a handler registered under \"stop\"; sequences of 2-3 commands (registered and unregistered ones) in one dialogue; oracle: exactly one invocation of the handler of name with the typed list the property prescribes; " +
+				"words from {abc, é, true, false, 1, 007, -2, 3.5, -0.5, +3, inf, nan, Infinity, 0x10, True, 1., .5, -, 1.2.3, {1+1}, {\"s t\"}, {true}, {$v}, 2147483648, 9223372036854775807, 9223372036854775808, 18446744073709551615, -10000000000000000000, a 30-digit integer, 0.30000000000000004, 1.14, -0, 0.0, 00}, separators from {one space, three spaces, tab, leading / trailing space}; " +
+				"handlers registered with raw AddCommand record their typed arguments; each name also unregistered, and a handler registered under \"stop\"; sequences of 2-3 commands (registered and unregistered ones) in one dialogue; loop: every command of 1-2 arguments from 8 (compound) inline expressions over variables, executed three times in a jump loop while the variables change; oracle: exactly one invocation of the handler of name with the typed list the property prescribes; " +
 				"a case is one command statement in one host configuration; non-trivial = at least one argument or a keyword-prefixed name",
 			StatesMean:  "distinct (command statement, host configuration) cases; transitions = real Next calls",
 			Assumptions: []string{"a decimal literal is what the language's grammar calls a number (digits, optionally a dot and digits), optionally negative: 1. and .5 are words; 1e3 is not generated", "a word directly adjacent to an inline expression is not generated", "sequences: after the error of an unregistered command the dialogue continues with the following statement"},
@@ -35,7 +35,10 @@ func runC17(ctx *report.Ctx) {
 	}
 	words := []word{{w: "abc"}, {w: "é"}, {w: "true"}, {w: "false"}, {w: "1"}, {w: "007"}, {w: "-2"}, {w: "3.5"}, {w: "-0.5"}, {w: "+3"},
 		{w: "inf"}, {w: "nan"}, {w: "Infinity"}, {w: "0x10"}, {w: "True"}, {w: "1."}, {w: ".5"}, {w: "-"}, {w: "1.2.3"},
-		{e: yc.EBinary("+", yc.ENumber(1), yc.ENumber(1))}, {e: yc.EString("s t")}, {e: yc.EBoolean(true)}, {e: yc.EVariable("v")}}
+		{e: yc.EBinary("+", yc.ENumber(1), yc.ENumber(1))}, {e: yc.EString("s t")}, {e: yc.EBoolean(true)}, {e: yc.EVariable("v")},
+		// decimal literals beyond the integer ranges, long fractions, zero forms
+		{w: "2147483648"}, {w: "9223372036854775807"}, {w: "9223372036854775808"}, {w: "18446744073709551615"}, {w: "-10000000000000000000"}, {w: "123456789012345678901234567890"},
+		{w: "0.30000000000000004"}, {w: "1.14"}, {w: "-0"}, {w: "0.0"}, {w: "00"}}
 	reduced := []word{words[0], words[2], words[4], words[6], words[10], words[15], words[19], words[20]}
 	seps := []string{" ", "   ", "\t", " \t "}
 	var cmds []yc.CmdSpec
@@ -67,6 +70,40 @@ func runC17(ctx *report.Ctx) {
 		ctx.AddTraces(1)
 		if mm != "" {
 			ctx.Violation(report.Violation{Clause: "command-sequence", Witness: "cmds:" + strings.ReplaceAll(srcs[0], "\n", " / "), Detail: mm, Choices: c.Choices(), Part: "sequences", Extra: map[string]any{"scripts": srcs}})
+		}
+	})
+	// loop: a command whose arguments are (compound) inline expressions over variables, executed three times by one
+	// runner (a node re-entered through a jump) while the variables change: the handler gets the values of now
+	loopArgs := []*yc.Expr{yc.EVariable("v"), yc.EBinary("*", yc.EVariable("v"), yc.ENumber(2)), yc.ENegate(yc.EVariable("v")), yc.ENotOf(yc.EVariable("b")),
+		yc.EBinary("+", yc.EString("r"), yc.EVariable("s")), yc.EBinary("+", yc.EBinary("+", yc.EVariable("v"), yc.ENumber(1)), yc.EVariable("v")), yc.EBinary(">", yc.EVariable("v"), yc.ENumber(9)), yc.ENumber(4)}
+	part(ctx, "loop", -1, func(c *explore.Chooser) {
+		k := 1 + c.Choose(2, "nargs")
+		st := &yc.Stmt{K: yc.SCommand, Cmd: "foo"}
+		for i := 0; i < k; i++ {
+			if c.Choose(4, "literal-word") == 3 {
+				st.CmdArgs = append(st.CmdArgs, yc.CmdArg{Word: "w"})
+				continue
+			}
+			st.CmdArgs = append(st.CmdArgs, yc.CmdArg{E: loopArgs[c.Choose(len(loopArgs), "expr")]})
+		}
+		if !c.Mine() {
+			return
+		}
+		p := &yc.Program{Nodes: []*yc.Node{{Title: "A", Body: []*yc.Stmt{st,
+			yc.Set("v", "=", yc.EBinary("+", yc.EVariable("v"), yc.ENumber(1))), yc.Set("b", "=", yc.ENotOf(yc.EVariable("b"))), yc.Set("s", "=", yc.EBinary("+", yc.EVariable("s"), yc.EString("x"))),
+			yc.Line("again"), yc.Jump("A")}}}}
+		hs := &yc.HostSpec{Cmds: []yc.CmdSpec{{Name: "foo"}}, Vars: map[string]yc.Value{"v": yc.Num(9), "b": yc.Bool(true), "s": yc.Str("a")}}
+		srcs := yc.Render(p, nil)
+		cmdSrc := strings.Split(srcs[0], "\n")[2]
+		ctx.Current("loop:" + cmdSrc)
+		mm, wst := yc.Walk(p, srcs, hs, yc.WalkOpts{MaxSteps: 6, MaxJumps: 2, StrictErrors: true, CompareLog: true})
+		ctx.AddEvals(1, 1)
+		ctx.AddStates(1)
+		ctx.AddTransitions(wst.Steps)
+		ctx.AddTraces(1)
+		if mm != nil {
+			ctx.Violation(report.Violation{Clause: "command-loop-" + mm.Clause, Witness: "cmd:" + cmdSrc + " executed three times while its variables change",
+				Detail: fmt.Sprintf("%s; observed trace %v", mm.Detail, mm.Trace), Choices: c.Choices(), Part: "loop", Extra: map[string]any{"scripts": srcs, "go_test": goTestFor(srcs, "abc", mm.Args, mm.Detail)}})
 		}
 	})
 	maxK := report.Pick(ctx, 3, 4)
